@@ -139,27 +139,35 @@ def conjuncts(body, op, depth=0):
   preds = body.preds()
   terms = []
   for d in falses:
-    # walk back over goto-only predecessors to the switch whose false edge leads here
-    bb = d['bb']
+    # walk back over goto-only predecessors to every switch with an edge leading here
     seen = set()
-    found = None
-    work = [bb]
+    found = []
+    work = [d['bb']]
     while work:
       x = work.pop()
       for p in preds.get(x, []):
-        if p in seen:
-          continue
-        seen.add(p)
         t = body.term(p)
         if t['k'] == 'switch' and t.get('dty') == 'bool':
           for lab, tgt in body.switch_edges(p):
-            if tgt == x and lab == 0:
-              found = p
-        elif t['k'] == 'goto':
+            if tgt == x and (p, lab) not in seen:
+              seen.add((p, lab))
+              found.append((p, lab))
+        elif t['k'] == 'goto' and p not in seen:
+          seen.add(p)
           work.append(p)
-    if found is None:
+    if not found:
       return None
-    terms.append((describe_cond(body, body.term(found)['d']), found))
+    for p, lab in sorted(found):
+      atom = describe_cond(body, body.term(p)['d'])
+      if lab == 0:
+        terms.append((atom, p))
+      else:
+        # the temp becomes false when this condition is TRUE: the conjunct is its negation
+        if isinstance(atom, tuple) and atom and atom[0] == 'cmp':
+          from .facts import CMP_NEG
+          terms.append((('cmp', CMP_NEG[atom[1]], atom[2], atom[3]), p))
+        else:
+          terms.append((('not', atom), p))
   o = others[0]
   if o['kind'] == 'assign':
     rv = o['rv']
